@@ -48,6 +48,12 @@ Mis == { [kind |-> kd, cx |-> FALSE, xs |-> RX(<<0, 2, 4>>), ys |-> ys, ds |-> d
        \cup { [kind |-> "hermite", cx |-> FALSE, xs |-> RX(xs), ys |-> ys, ds |-> ds, tol |-> Tol,
                src |-> <<I(0)>>, has_src |-> FALSE, mismatch |-> TRUE] :
                  xs \in {<<0, 2, 4>>, <<-2, 1>>}, ys \in {<<I(1), I(2)>>, <<I(1), I(2), I(3)>>}, ds \in {<<I(0)>>, <<I(0), I(1)>>, <<I(0), I(1), I(0)>>, <<I(0), I(1), I(0), I(2)>>} }
+       \* ... and every combination of 0..3 nodes, ordinates and derivatives (the mismatched ones are kept below): among them a
+       \* single node with no or two ordinates, and no node at all with data
+       \cup { [kind |-> kd, cx |-> FALSE, xs |-> RX(SubSeq(<<0, 2, 4>>, 1, a)), ys |-> SubSeq(<<I(1), I(2), I(3)>>, 1, b),
+               ds |-> SubSeq(<<I(0), I(1), I(0)>>, 1, IF kd = "lagrange" THEN a ELSE c), tol |-> Tol,
+               src |-> <<I(0)>>, has_src |-> FALSE, mismatch |-> TRUE] :
+                 kd \in {"lagrange", "hermite"}, a \in 0..3, b \in 0..3, c \in 0..3 }
 All == Lag \cup Her \cup Arb \cup Cpx \cup {c \in Mis : ~(Len(c.xs) = Len(c.ys) /\ (c.kind = "lagrange" \/ Len(c.xs) = Len(c.ds)))}
 ASSUME ndJsonSerialize(IOEnv.VH_CASES, SetToSeq(All))
 ASSUME PrintT(<<"GENERATED", Cardinality(All)>>)
